@@ -2,6 +2,7 @@ package symex
 
 import (
 	"encoding/hex"
+	"encoding/json"
 	"fmt"
 	"go/types"
 	"strconv"
@@ -175,7 +176,8 @@ func (m *Machine) FreshValue(t types.Type, name string, depth int) Value {
 func (m *Machine) freshBytes(name string, n int) *smt.Term {
 	t := m.Fresh(name, smt.Str)
 	if n >= 0 {
-		smt.AddAxiom(smt.Eq(smt.StrLen(t), smt.IntC(int64(n))))
+		// a path fact, not a global axiom: the same name may be drawn with another length on another path
+		m.pc = append(m.pc, smt.Eq(smt.StrLen(t), smt.IntC(int64(n))))
 	}
 	return t
 }
@@ -555,6 +557,11 @@ func init() {
 		m.GoInline = args[0].(*smt.Term).IsTrue()
 		return nil
 	}
+	I["zzverif.JSONArbitrary"] = func(m *Machine, fn *ssa.Function, args []Value) Value {
+		m.ghost["json.noarbitrary"] = !args[0].(*smt.Term).IsTrue()
+		return nil
+	}
+	I["zzverif.Thorough"] = func(m *Machine, fn *ssa.Function, args []Value) Value { return smt.BoolC(m.Thorough) }
 	I["zzverif.Symbolic"] = func(m *Machine, fn *ssa.Function, args []Value) Value { return smt.True }
 	I["zzverif.Fail"] = func(m *Machine, fn *ssa.Function, args []Value) Value {
 		m.end("exit", "harness stop: "+constStr(args[0], "message"))
@@ -738,7 +745,7 @@ func init() {
 			parts = append(parts, head)
 			rest = tail
 		}
-		m.end("unwind", "strings.Split: more than 5 separators (bound)")
+		m.end("assume", "bound: strings.Split input has more than 5 separators")
 		return nil
 	}
 	I["strconv.Atoi"] = func(m *Machine, fn *ssa.Function, args []Value) Value {
@@ -1110,12 +1117,30 @@ func jsonUnmarshal(m *Machine, fn *ssa.Function, args []Value) Value {
 			return &IfaceV{}
 		}
 	}
-	if data.IsConst() && data.S == "null" {
-		// null leaves pointers nil without error
-		return &IfaceV{}
+	if data.IsConst() {
+		// concrete payloads follow encoding/json exactly for the cases that can be decided here
+		trimmed := strings.TrimSpace(data.S)
+		switch {
+		case !json.Valid([]byte(data.S)):
+			return m.newError(smt.StrC("json: invalid syntax"), nil)
+		case trimmed == "null":
+			return &IfaceV{} // null leaves pointers nil without error
+		case trimmed[0] != '{':
+			return m.newError(smt.StrC("json: cannot unmarshal non-object into Go struct"), nil)
+		case strings.Join(strings.Fields(trimmed), "") == "{}":
+			if pp, ok := elem.(*types.Pointer); ok {
+				target.store(&Ptr{Cell: m.newCell(Zero(pp.Elem()), pp.Elem(), "json.empty")})
+			}
+			return &IfaceV{}
+		}
+		panic(unsupported("json.Unmarshal of a concrete object literal"))
 	}
 	// adversarial payload: error, null, or arbitrary content
-	switch m.choose(3) {
+	nAlt := 3
+	if b, ok := m.ghost["json.noarbitrary"].(bool); ok && b {
+		nAlt = 2 // harness bound: unknown payloads decode as error or null only
+	}
+	switch m.choose(nAlt) {
 	case 0:
 		return m.newError(smt.StrC("json: cannot unmarshal"), nil)
 	case 1:
